@@ -829,6 +829,50 @@ func randomSegs(im *image, allowOutside bool) []seg {
 	if len(s) > 1 && rng.Intn(3) == 0 { // the same segment twice
 		s = append(s, s[0])
 	}
+	// consecutive list entries that are related by position (real manifests list the IBB back to back): a run of
+	// 2-5 segments each starting where the previous one ends (sometimes one byte / one paragraph later, or one byte
+	// earlier), hashed and excluded ones mixed, placed before, after or in the middle of the list
+	if rng.Intn(2) == 0 {
+		k := 2 + rng.Intn(4)
+		var run []seg
+		room := im.RegionEnd - im.RegionBeg
+		pos := im.RegionBeg + rng.Intn(room/2)
+		for i := 0; i < k; i++ {
+			size := 16 * rng.Intn(0x20)
+			if rng.Intn(5) == 0 {
+				size = rng.Intn(0x100)
+			}
+			if pos+size > im.RegionEnd {
+				break
+			}
+			run = append(run, seg{uint32(im.phys(pos)), uint32(size), pick[uint16](0, 1, 0, 1, 1, 3, 2, 0xfffe)})
+			pos += size
+			switch rng.Intn(8) {
+			case 0:
+				pos++
+			case 1:
+				pos += 16
+			case 2:
+				if size > 0 {
+					pos--
+				}
+			}
+		}
+		if rng.Intn(4) == 0 { // the run in descending order
+			for i, j := 0, len(run)-1; i < j; i, j = i+1, j-1 {
+				run[i], run[j] = run[j], run[i]
+			}
+		}
+		switch at := rng.Intn(3); {
+		case at == 0 || len(s) == 0:
+			s = append(run, s...)
+		case at == 1:
+			s = append(s, run...)
+		default:
+			m := 1 + rng.Intn(len(s))
+			s = append(append(append([]seg{}, s[:m]...), run...), s[m:]...)
+		}
+	}
 	return s
 }
 
